@@ -615,7 +615,9 @@ func streamHist(o *Out, rng *rand.Rand, thorough bool, _ []string) {
 			}
 		}
 		nrec(nil)
-		// schema changes around Reset and Flush: after either, a sample of ANOTHER schema is handled as by a fresh collector
+		// schema changes around Reset, Flush and SetMetadata: after a Reset or Flush a sample of ANOTHER schema is handled as
+		// by a fresh collector; metadata set after a schema change still leads what Resolve emits
+		npool = append(npool, hx(docBytes([]*Node{i64n("host", 5), i64n("version", 2)})))
 		zl := 3
 		if thorough {
 			zl = 4
@@ -632,7 +634,7 @@ func streamHist(o *Out, rng *rand.Rand, thorough bool, _ []string) {
 			if len(prefix) == zl {
 				return
 			}
-			for _, a := range []string{"a0", "a1", "z", "f", "r"} {
+			for _, a := range []string{"a0", "a1", "z", "f", "r", "m3"} {
 				zrec(append(append([]string{}, prefix...), a))
 			}
 		}
